@@ -6,7 +6,7 @@ import os
 import re
 import shutil
 
-SRCS = [("/tmp/mut", ""), ("/tmp/mut3", "3"), ("/tmp/mut4", "4")]      # (directory of the sub-agents' worktrees, wave prefix of the ids)
+SRCS = [("/tmp/mut", ""), ("/tmp/mut3", "3"), ("/tmp/mut4", "4"), ("/tmp/mut5", "5")]      # (directory of the sub-agents' worktrees, wave prefix of the ids)
 CONF = "/tmp/confirm"
 OUT = "/verif/seeded"
 det = json.load(open("/verif/seeded/detection.json")) if os.path.exists("/verif/seeded/detection.json") else {}
